@@ -28,6 +28,8 @@ def patches_for(pid: str):
             m = json.load(open(meta))
         except Exception:
             continue
+        if m.get("obsolete"):
+            continue  # neutralised by a later fix in /repo (see meta.json: obsolete_reason)
         props = m.get("property") if isinstance(m.get("property"), list) else [m.get("property")]
         if pid in props or pid in m.get("also_caught_by", []):
             out.append(os.path.join(os.path.dirname(meta), "patch.diff"))
